@@ -220,6 +220,144 @@ theorem c10_empty_key_counter (N : Num) (hN : NumLaws N) :
   refine ⟨{ points := [{ type := [109], key := [], text := [120] }] }, by simp [encode, encodeFields, encodeField, encMap, keyed, pointFromScalar, widenS, maxStructureSize, collect], ?_⟩
   simp [decode, decodeFields, zero, zeroF, group, atoi, setValue, setMap, setScalar, tombOdd, setKey, maxStructureSize]
 
+/-! ## child lists -/
+
+/-- every child list lines up with a `child` field, whose element type has distinct tags, and holds values of it -/
+def KidsOk : List ChildField → List (List Val) → Prop
+  | [], [] => True
+  | cf :: cfs, ks :: kss => TagsDistinct cf.ty ∧ (∀ k ∈ ks, ValOk cf.ty k.fields) ∧ KidsOk cfs kss
+  | _, _ => False
+
+/-- the encoded children of the fields `cfs`: per field its elements in order, each decoding to its element -/
+inductive KRel (N : Num) : List ChildField → List (List Val) → List (Bytes × NodeEdge) → Prop
+  | nil : KRel N [] [] []
+  | cons (cf : ChildField) (cfs : List ChildField) (ks : List Val) (kss : List (List Val)) (nes : List NodeEdge)
+      (rest : List (Bytes × NodeEdge)) :
+      nes.map (fun ne => decode N cf.ty ne (zero cf.ty)) = ks.map (fun k => ({ val := k, err := false, panic := none } : DecodeOut)) →
+      KRel N cfs kss rest → KRel N (cf :: cfs) (ks :: kss) (nes.map (fun ne => (cf.ctype, ne)) ++ rest)
+
+theorem encode_kid_list (N : Num) (hN : NumLaws N) (T : Ty) (hd : TagsDistinct T) : ∀ (ks : List Val), (∀ k ∈ ks, ValOk T k.fields) →
+    ∃ nes, mapM' (fun k => encode N T k) ks = .ok nes ∧
+      nes.map (fun ne => decode N T ne (zero T)) = ks.map (fun k => ({ val := k, err := false, panic := none } : DecodeOut)) := by
+  intro ks
+  induction ks with
+  | nil => intro _; exact ⟨[], rfl, rfl⟩
+  | cons k ks ih =>
+    intro h
+    obtain ⟨ne, hne, hdec⟩ := c10_decode_encode N hN T k hd (h k (by simp))
+    obtain ⟨nes, hnes, hall⟩ := ih (fun x hx => h x (by simp [hx]))
+    exact ⟨ne :: nes, by simp [mapM', hne, hnes], by simp [hdec, hall]⟩
+
+theorem encodeKids_ok (N : Num) (hN : NumLaws N) : ∀ (kfs : List ChildField) (kids : List (List Val)), KidsOk kfs kids →
+    ∃ cs, encodeKids N kfs kids = .ok cs ∧ KRel N kfs kids cs := by
+  intro kfs
+  induction kfs with
+  | nil =>
+    intro kids h
+    cases kids with
+    | nil => exact ⟨[], rfl, .nil⟩
+    | cons _ _ => simp [KidsOk] at h
+  | cons cf cfs ih =>
+    intro kids h
+    cases kids with
+    | nil => simp [KidsOk] at h
+    | cons ks kss =>
+      obtain ⟨hd, hks, hrest⟩ := h
+      obtain ⟨nes, hnes, hall⟩ := encode_kid_list N hN cf.ty hd ks hks
+      obtain ⟨rest, hr, hrel⟩ := ih kss hrest
+      exact ⟨nes.map (fun ne => (cf.ctype, ne)) ++ rest, by simp [encodeKids, hnes, hr], .cons cf cfs ks kss nes rest hall hrel⟩
+
+theorem KRel.types {N : Num} {cfs : List ChildField} {kss : List (List Val)} {cs : List (Bytes × NodeEdge)}
+    (h : KRel N cfs kss cs) : ∀ c ∈ cs, c.1 ∈ cfs.map (·.ctype) := by
+  induction h with
+  | nil => intro c hc; cases hc
+  | cons cf cfs ks kss nes rest _ _ ih =>
+    intro c hc
+    simp only [List.mem_append, List.mem_map] at hc
+    rcases hc with ⟨ne, _, rfl⟩ | hc
+    · simp
+    · simp only [List.map_cons, List.mem_cons]
+      exact Or.inr (ih c hc)
+
+theorem decodeKids_roundtrip (N : Num) (all : List (Bytes × NodeEdge)) :
+    ∀ (kfs : List ChildField) (kids : List (List Val)) (cs : List (Bytes × NodeEdge)), KRel N kfs kids cs →
+      (kfs.map (·.ctype)).Nodup →
+      (∀ cf ∈ kfs, all.filter (fun c => c.1 == cf.ctype) = cs.filter (fun c => c.1 == cf.ctype)) →
+      decodeKids N all kfs (kfs.map (fun _ => [])) = (kids, false, none) := by
+  intro kfs kids cs h
+  induction h with
+  | nil => intro _ _; rfl
+  | cons cf cfs ks kss nes rest hdec hrel ih =>
+    intro hnd hall
+    simp only [List.map_cons, List.nodup_cons] at hnd
+    have hown : (nes.map (fun ne => (cf.ctype, ne))).filter (fun c => c.1 == cf.ctype) = nes.map (fun ne => (cf.ctype, ne)) := by
+      rw [List.filter_eq_self]; intro c hc; simp only [List.mem_map] at hc; obtain ⟨_, _, rfl⟩ := hc; simp
+    have hrest0 : rest.filter (fun c => c.1 == cf.ctype) = [] := by
+      rw [List.filter_eq_nil_iff]
+      intro c hc
+      have := hrel.types c hc
+      intro heq
+      apply hnd.1
+      have : c.1 = cf.ctype := by simpa using heq
+      rw [← this]; assumption
+    have hfil : all.filter (fun c => c.1 == cf.ctype) = nes.map (fun ne => (cf.ctype, ne)) := by
+      rw [hall cf (by simp), List.filter_append, hown, hrest0, List.append_nil]
+    have ihr := ih hnd.2 (by
+      intro cf' hcf'
+      rw [hall cf' (by simp [hcf']), List.filter_append]
+      have : (nes.map (fun ne => (cf.ctype, ne))).filter (fun c => c.1 == cf'.ctype) = [] := by
+        rw [List.filter_eq_nil_iff]; intro c hc; simp only [List.mem_map] at hc; obtain ⟨_, _, rfl⟩ := hc
+        intro heq
+        apply hnd.1
+        have : cf.ctype = cf'.ctype := by simpa using heq
+        rw [this]; exact List.mem_map_of_mem (f := (·.ctype)) hcf'
+      rw [this, List.nil_append])
+    have hlen : nes.length = ks.length := by
+      have := congrArg List.length hdec
+      simpa using this
+    have hfield : decodeKidField N cf all [] = (ks, false, none) := by
+      unfold decodeKidField
+      simp only [hfil]
+      cases hn : nes with
+      | nil =>
+        have : ks = [] := List.eq_nil_of_length_eq_zero (by rw [← hlen, hn]; rfl)
+        subst this
+        rfl
+      | cons ne0 nes0 =>
+        rw [← hn]
+        have hne : (nes.map (fun ne => (cf.ctype, ne))).isEmpty = false := by rw [hn]; rfl
+        simp only [hne, Bool.false_eq_true, if_false, List.map_map]
+        have hcomp : ((fun (c : Bytes × NodeEdge) => decode N cf.ty c.2 (zero cf.ty)) ∘ fun ne => (cf.ctype, ne)) =
+            fun ne => decode N cf.ty ne (zero cf.ty) := rfl
+        rw [hcomp, hdec]
+        have hfind : (ks.map (fun k => ({ val := k, err := false, panic := none } : DecodeOut))).find? (fun o => o.panic.isSome) = none := by
+          rw [List.find?_eq_none]; intro o ho; simp only [List.mem_map] at ho; obtain ⟨_, _, rfl⟩ := ho; simp
+        have hany : (ks.map (fun k => ({ val := k, err := false, panic := none } : DecodeOut))).any (fun o => o.err) = false := by
+          rw [List.any_eq_false]; intro o ho; simp only [List.mem_map] at ho; obtain ⟨_, _, rfl⟩ := ho; simp
+        have hvals : (ks.map (fun k => ({ val := k, err := false, panic := none } : DecodeOut))).map (fun o => o.val) = ks := by
+          rw [List.map_map]; exact List.map_id' ks
+        have h1 : nes.map ((fun (x : DecodeOut) => x.val) ∘ fun ne => decode N cf.ty ne (zero cf.ty)) = ks := by
+          rw [← List.map_map, hdec]; exact hvals
+        refine Prod.ext h1 (Prod.ext ?_ ?_)
+        · exact hany
+        · show ((ks.map (fun k => ({ val := k, err := false, panic := none } : DecodeOut))).find? (fun o => o.panic.isSome)).bind (·.panic) = none
+          rw [hfind]; rfl
+    simp only [List.map_cons, decodeKids, hfield, ihr, Bool.or_self]
+
+/-- **C10 (child lists on decode).** A node handed to `Decode` together with its children — every element of every
+`child` field encoded as a child node of the field's node type — decodes into the zero value as the same value with
+the same child lists: every list with its elements in order, the empty ones left nil, children of other types ignored
+by each field. (One level: the element types have no child fields of their own.) -/
+theorem c10_decode_encode_children (N : Num) (hN : NumLaws N) (T : Ty) (kfs : List ChildField) (v : Val) (kids : List (List Val))
+    (hd : TagsDistinct T) (hok : ValOk T v.fields) (hkd : (kfs.map (·.ctype)).Nodup) (hk : KidsOk kfs kids) :
+    ∃ ne cs, encode N T v = .ok ne ∧ encodeKids N kfs kids = .ok cs ∧
+      decodeC N T kfs ne cs (zero T) (kfs.map (fun _ => [])) = ({ val := v, err := false, panic := none }, kids) := by
+  obtain ⟨ne, hne, hdec⟩ := c10_decode_encode N hN T v hd hok
+  obtain ⟨cs, hcs, hrel⟩ := encodeKids_ok N hN kfs kids hk
+  refine ⟨ne, cs, hne, hcs, ?_⟩
+  unfold decodeC
+  simp only [hdec, decodeKids_roundtrip N cs kfs kids cs hrel hkd (fun _ _ => rfl), Bool.or_self]
+
 /-! ## Diff / Merge -/
 
 /-- keys of flat structs come from the field tag or the camel-cased Go field name: never empty -/
